@@ -1,5 +1,5 @@
 Require Extraction.
 Require Import ExtrOcamlBasic.
 Require Import BertE.Base.Anchors BertE.Model.QueueSel BertE.Spec.C05Spec.
-Extraction "../build/ocaml/C05/model.ml" anchor_types add_versions process moves failed_prs queued_prs
+Extraction "../build/ocaml/C05/model.ml" anchor_types add_versions evaluate failed_prs queued_prs
   extract_pr_ids get_merge_paths spec_prs spec_moves wf_b.
